@@ -31,8 +31,10 @@ pub const UNINTERPRETABLE: &[&str] = &["[", "a[", "[a", "a**b", "***", "**a", "[
 /// equal and different digests, and shifted prefixes are all frequent
 fn related_artifacts() -> BoxedStrategy<(Artifacts, Artifacts, Vec<(String, Artifacts, Artifacts)>)> {
     let base = proptest::collection::btree_map(relpath(), digests(true), 0..5);
-    (base, proptest::collection::vec((any::<u8>(), any::<u8>(), digests(true), proptest::option::weighted(0.4, prefix())), 0..8), 0usize..3)
-        .prop_map(|(pool, picks, nothers)| {
+    // cardinality tail: the item under verification additionally records many vendored files
+    let many = prop_oneof![30 => Just(0usize), 1 => prop_oneof![Just(15usize), Just(16), Just(31), Just(32), Just(33), Just(64), Just(100), Just(300)]];
+    (base, proptest::collection::vec((any::<u8>(), any::<u8>(), digests(true), proptest::option::weighted(0.4, prefix())), 0..8), 0usize..3, many)
+        .prop_map(|(pool, picks, nothers, many)| {
             let pool_v: Vec<(String, Digests)> = pool.into_iter().collect();
             let mut sets: Vec<Artifacts> = vec![Artifacts::new(); 2 + 2 * nothers];
             // every pool artifact goes into a random subset of the sets
@@ -58,6 +60,18 @@ fn related_artifacts() -> BoxedStrategy<(Artifacts, Artifacts, Vec<(String, Arti
                 };
                 let dig = if k % 2 == 0 { orig.clone() } else { d.clone() };
                 sets[target].insert(path, dig);
+            }
+            if many > 0 {
+                let d: Digests = [("sha256".to_string(), DIGEST_POOL_256[0].to_string())].into();
+                let side = picks.first().map(|x| x.0 % 3).unwrap_or(0);
+                for i in 0..many {
+                    if side != 1 {
+                        sets[0].insert(format!("vendor/dep{:03}", i), d.clone());
+                    }
+                    if side != 0 {
+                        sets[1].insert(format!("vendor/dep{:03}", i), d.clone());
+                    }
+                }
             }
             let mut it = sets.into_iter();
             let m = it.next().unwrap();
